@@ -1,5 +1,5 @@
 From Coq Require Import List NArith ZArith Permutation.
-From SK Require Import lib.LGraph lib.StrJoin model.C08_Model proof.C08_Spec proof.C08_Faithful proof.C08_Nauty proof.C08_SigFun proof.C08_Sound proof.C08_Invariant proof.C08_Value proof.C08_GraphSig proof.C08_Auts.
+From SK Require Import lib.LGraph lib.StrJoin model.C08_Model proof.C08_Spec proof.C08_Faithful proof.C08_Nauty proof.C08_SigFun proof.C08_Sound proof.C08_Invariant proof.C08_Value proof.C08_GraphSig proof.C08_Auts proof.C08_GenIdem.
 Import ListNotations.
 
 (** 1. Faithfulness: the canonical graph is the input relabelled by a map that is injective on its nodes;
@@ -206,3 +206,13 @@ Theorem C08_nauty_automorphisms_complete : forall (g : graph) (sigma : N -> N), 
   In (map sigma (nauty_perm g)) (snd (nauty_acc g)).
 Proof. exact nauty_auts_complete. Qed.
 Print Assumptions C08_nauty_automorphisms_complete.
+
+(** 10. The attribute-sort back-end is idempotent: canonicalising a generic canonical graph changes nothing on the
+        covered attributes (its nodes are already numbered in sorted order; the sort keys are prefix-free, so replacing
+        the id tie-breaker by the rank keeps the order), hence the signature of the twin - what CanonicalGraph hashes -
+        is the signature of the raw graph - what SynGraph hashes - also for the generic back-end. *)
+Theorem C08_generic_idempotent : forall g : graph, wf g ->
+  geq_cov (canon_generic (canon_generic g)) (canon_generic g) /\
+  serialise (canon_generic (canon_generic g)) = serialise (canon_generic g).
+Proof. exact generic_idempotent. Qed.
+Print Assumptions C08_generic_idempotent.
